@@ -166,6 +166,34 @@ impl Prop for C10 {
 				Err(e) => problems.push(("recipient_cannot_read".into(), format!("recipient {}:{} cannot read: {}", w, i, e))),
 			}
 			if encrypted {
+				// the wallet tries a list of its address indices; the matching one may come
+				// anywhere in that list
+				let mut list: Vec<u32> = (0..4u32).collect();
+				for k in (1..list.len()).rev() {
+					let j = r.idx(k + 1);
+					list.swap(k, j);
+				}
+				if r.chance(1, 2) {
+					let keep = 2 + r.idx(2);
+					let mut l2: Vec<u32> = list.iter().cloned().filter(|x| x != i).take(keep - 1).collect();
+					let pos = r.idx(l2.len() + 1);
+					l2.insert(pos, *i);
+					list = l2;
+				}
+				counts["recipient_reads"] = json!(counts["recipient_reads"].as_u64().unwrap() + 1);
+				match decode(*w, list.clone(), &text) {
+					Ok(s) => {
+						if !same_slate(&s, &slate) {
+							problems.push(("recipient_decoded_other_slate".into(), format!("recipient {}:{} (index list {:?}) decoded a different slate", w, i, list)));
+						}
+					}
+					Err(e) => problems.push((
+						"recipient_cannot_read:index_list".into(),
+						format!("recipient wallet {} holds the key at index {} but cannot read with index list {:?}: {}", w, i, list, e),
+					)),
+				}
+			}
+			if encrypted {
 				match ex.world.owner(*w).decode_slatepack_message(ex.world.mask(*w).as_ref(), text.clone(), vec![*i]) {
 					Ok(sp) => {
 						if sp.sender.as_ref().map(|s| s.pub_key) != Some(sender_addr.pub_key) {
